@@ -35,4 +35,9 @@ def waitersState : St :=
   { tasks := [{ kind := .rt, prog := [.wait 0] }, { kind := .loc, prog := [.wait 0] }, { kind := .rt, prog := [.wait 0] }],
     conds := [{ coop := false, cap1 := true }] }
 
+/-- two tasks in `timeout(500, notified())` on one Notify -/
+def timeoutState : St :=
+  { tasks := [{ kind := .rt, prog := [.waitT 0 500] }, { kind := .loc, prog := [.waitT 0 500] }],
+    conds := [{ coop := false, cap1 := true }] }
+
 end Exec
